@@ -25,3 +25,15 @@ pub open spec fn next_remover_spec(b: Seq<u8>, p: int) -> (int, int) {
     match next2(b, p) { Some(q2) => (p, q2), None => (p, p) }
 }
 
+
+/// exact result of IndentRemover as a function (the witness ls is unique)
+pub open spec fn indent_spec(b: Seq<u8>, p: int) -> (int, int) {
+    if exists|ls: int| indent_ok(b, p, ls) { (choose|ls: int| indent_ok(b, p, ls), p) } else { (p, p) }
+}
+pub proof fn lemma_indent_unique(b: Seq<u8>, p: int, l1: int, l2: int)
+    requires indent_ok(b, p, l1), indent_ok(b, p, l2),
+    ensures l1 == l2,
+{
+    if l1 < l2 { assert(is_lf(b[l2 - 1])); assert(is_blank(b[l2 - 1])); }
+    else if l2 < l1 { assert(is_lf(b[l1 - 1])); assert(is_blank(b[l1 - 1])); }
+}
